@@ -68,7 +68,12 @@ def run(ck):
                "small capacities; non-trivial = at least two statements written; distinct by script")
     ck.assumptions = ["token scheduler: one logical thread runs between yield points (QUILL_VERIF hooks, interposed clock/sleep)",
                       "statement identity is carried in the message text and recovered from what the sink receives"]
-    import sysmodel, ringcheck
+    import sysmodel, ringcheck, newctxmodel
+    # registration of a new thread's context under release/acquire (spec/NewCtxRA.tla on the real backend thread, harness/h_stop)
+    newctxmodel.run_for(ck)
+    import os
+    if os.environ.get("VERIF_PART") == "newctx":
+        return
     ringcheck.run(ck, quick)
     sysmodel.run_for(ck, "C03")
     # "UBS" = the shadow-Spinlock build: every lock acquisition/release of a frontend thread is a yield point (context registration
@@ -88,4 +93,9 @@ def run(ck):
 
 
 def replay(ck, path):
+    import json
+    if json.loads(open(path).read())["replay"].get("harness") == "h_stop":
+        import stopmodel
+        stopmodel.replay(path)
+        return
     qsys.replay(path)
